@@ -67,8 +67,8 @@ ASSUMPTIONS = [
     'in real mode on complex-allocated vectors the hidden imaginary part is judged only where the semantics is '
     'documented (set_val/set_vec reset it) or the operation acts on asarray() (imag untouched); after set_var / '
     '__setitem__ / set_vals it is re-read, not judged',
-    'scale_to_norm(fwd) of a LINEAR INPUT vector of a sub-system that has no output scaling itself, in a model that '
-    'has, is only judged for the round trip (the formula there is an internal convention)',
+    'scale_to_norm/phys(fwd) of a LINEAR INPUT vector of a sub-system (not the root) is only judged for the round '
+    'trip (which of the two scalers a1*factor or factor/a1 is used there depends on internal flags of the sub-system)',
     'mode="rev" scaling is judged by formula for linear input vectors (the only use in OpenMDAO) and by round trip '
     'for the other linear vectors; never applied to nonlinear vectors',
     'mixed-mode binary operations (complex operand into a real-mode vector) are not generated',
@@ -129,10 +129,49 @@ def make_spec(seed):
     return spec, cfg
 
 
-def _ivc_factory(c, hook):
-    """IndepVarComp with ref/ref0/res_ref (G.build's own IVC branch does not pass them)."""
+_CLS = {}
+
+
+def _classes():
+    """harness components whose scalar-shaped variables are declared with an explicit shape=()."""
+    if _CLS:
+        return _CLS
+    from omv.gen.comps import HExplicit, HImplicit
+
+    def _omv_add_io(self):
+        cs = self._omv_cs
+        for i in cs['inputs']:
+            kw = {'units': i['units']} if i.get('units') else {}
+            if i['shape']:
+                self.add_input(i['name'], val=np.ones(i['shape']), **kw)
+            else:
+                self.add_input(i['name'], val=1.0, shape=(), **kw)
+        for o in cs['outputs']:
+            kw = {}
+            for k in ('units', 'ref', 'ref0', 'res_ref'):
+                if o.get(k) is not None:
+                    kw[k] = np.asarray(o[k], dtype=float).reshape(o['shape']) if isinstance(o[k], list) else o[k]
+            if o['shape']:
+                self.add_output(o['name'], val=np.asarray(o.get('val', np.zeros(o['shape'])),
+                                                          dtype=float).reshape(o['shape']), **kw)
+            else:
+                self.add_output(o['name'], val=float(np.asarray(o.get('val', 0.0)).ravel()[0]), shape=(), **kw)
+
+    class SExplicit(HExplicit):
+        pass
+
+    class SImplicit(HImplicit):
+        pass
+    SExplicit._omv_add_io = _omv_add_io
+    SImplicit._omv_add_io = _omv_add_io
+    _CLS.update(exp=SExplicit, imp=SImplicit)
+    return _CLS
+
+
+def _factory(c, hook):
+    """components of the spec; IndepVarComp with ref/ref0/res_ref (G.build's own IVC branch does not pass them)."""
     if c['kind'] != 'ivc':
-        return None
+        return _classes()[c['kind']](c, hook)
     import openmdao.api as om
     ivc = om.IndepVarComp()
     for oo in c['outputs']:
@@ -141,8 +180,12 @@ def _ivc_factory(c, hook):
             if oo.get(k) is not None:
                 kw[k] = np.asarray(oo[k], dtype=float).reshape(oo['shape']) if isinstance(oo[k], list) \
                     else float(oo[k])
-        ivc.add_output(oo['name'], val=np.asarray(oo['val'], dtype=float).reshape(oo['shape']),
-                       units=oo.get('units'), **kw)
+        if oo['shape']:
+            ivc.add_output(oo['name'], val=np.asarray(oo['val'], dtype=float).reshape(oo['shape']),
+                           units=oo.get('units'), **kw)
+        else:
+            ivc.add_output(oo['name'], val=float(np.asarray(oo['val']).ravel()[0]), shape=(),
+                           units=oo.get('units'), **kw)
     return ivc
 
 
@@ -380,6 +423,7 @@ class Run:
         self.nr = np.random.default_rng(self.seed)
         self.ops_done = []
         self.pviews = []       # persistent named views: (handle, var dict, array, complex?)
+        self.deferred = []     # violations that do not invalidate the rest of the history
 
     # ---- values ------------------------------------------------------------------------------------------------
     def val(self, shape, cplx):
@@ -446,7 +490,7 @@ class Run:
         spec, cfg = make_spec(self.seed)
         self.spec, self.cfg = spec, cfg
         kw = {} if cfg['reorder'] else {'allow_post_setup_reorder': False}
-        prob = G.build(spec, comp_factory=_ivc_factory, problem_kwargs=kw)
+        prob = G.build(spec, comp_factory=_factory, problem_kwargs=kw)
         self.prob = prob
         prob.setup(force_alloc_complex=cfg['cs'], mode=cfg['mode'])
         prob.final_setup()
@@ -461,7 +505,11 @@ class Run:
         for kind in KINDS:
             for vn in VNAMES:
                 rv = model._vectors[kind][vn]
-                self.fams[kind, vn] = Fam(kind, vn, self.M.n[kind], rv._alloc_complex)
+                self.fams[kind, vn] = fam = Fam(kind, vn, self.M.n[kind], rv._alloc_complex)
+                if len(rv) != fam.S.size:
+                    raise Violation('layout:len', 'root %s/%s vector has length %d, the spec gives %d' %
+                                    (kind, vn, len(rv), fam.S.size))
+                fam.S[:] = rv._data          # initial content (set_initial_values) is not judged here
         if self.fams['output', 'nonlinear'].alloc != cfg['cs']:
             raise RuntimeError('harness: nonlinear complex allocation differs from force_alloc_complex')
         # systems: root + a few others
@@ -504,7 +552,7 @@ class Run:
     def check_all(self, op, h, imag_judged=True):
         """after operation `op` on handle `h`: every handle must show its shadow slice."""
         acc = self.acc
-        for g in self.handles:
+        for g in [h] + [x for x in self.handles if x is not h]:
             got = g.vec.asarray()
             exp = g.A
             acc.count('obs:asarray-compared')
@@ -589,9 +637,26 @@ class Run:
             fam.S[:] = v
             self.tick('set_val-array', h)
             self.check_all('set_val-array', h)
+        if self.cfg['cs'] and self.rng.random() < 0.5:
+            # start in complex-step mode with genuinely complex content (so that later real-mode operations
+            # meet a non-zero hidden imaginary part)
+            self.prob.set_complex_step_mode(True)
+            lin_alloc = self.fams['output', 'linear'].alloc
+            for g in self.handles:
+                if g.fam.vname == 'nonlinear' or lin_alloc:
+                    g.cs = True
+            for (kind, vn), fam in self.fams.items():
+                h = [g for g in self.handles if g.fam is fam and g.isroot][0]
+                if h.cplx:
+                    v = self.val((h.n,), True)
+                    h.vec.set_val(v)
+                    fam.S[:] = v
+                    self.tick('set_val-array', h)
+            self.tick('cs-mode-problem', h)
+            self.check_all('cs-mode-problem', h)
         ops = self.op_table()
         names = [o[0] for o in ops]
-        weights = [o[1] for o in ops]
+        weights = [(o[1] * 2 if (o[0] == 'cs' and self.cfg['cs']) else o[1]) for o in ops]
         for step in range(self.cfg['nops']):
             name = self.rng.choices(names, weights)[0]
             fn = dict((o[0], o[2]) for o in ops)[name]
@@ -711,12 +776,20 @@ class Run:
         self.tick('get_val', h)
         v = h.vec
         exp = h.A[d['llo']:d['lhi']]
-        for lab, nm in (('relative', d['rel']), ('promoted', d['prom'])):
-            if nm is None:
+        for lab, nm in (('absolute', d['abs']), ('relative', d['rel']), ('promoted', d['prom'])):
+            if nm is None or (lab == 'absolute' and not h.isroot and nm == d['rel']):
                 continue
+            if lab == 'absolute' and not h.isroot:
+                continue        # the documented argument is a promoted or relative name
             for flat in (True, False):
                 try:
                     got = v.get_val(nm, flat=flat)
+                except KeyError as e:
+                    # deferred: the rest of the history is still judged
+                    self.deferred.append((exc_key('get_val-non-absolute-name' if nm != d['abs'] else 'get_val', e),
+                                          '%s: get_val(%r, flat=%r) raised KeyError %s although %r is a %s name of the '
+                                          'owning system (vec[%r] works)' % (h.label(), nm, flat, e, nm, lab, nm)))
+                    break
                 except Exception as e:
                     raise Violation(exc_key('get_val-%s-name' % lab, e),
                                     '%s: get_val(%r, flat=%r) raised %s: %s' % (h.label(), nm, flat, type(e).__name__, e))
@@ -948,13 +1021,23 @@ class Run:
             res = np.empty(h.n)[idx]
             val = self.scalar(h.cplx) if (np.ndim(res) == 0 or self.rng.random() < 0.3) else self.val(res.shape, h.cplx)
             getattr(h.vec, which)(val, idx)
-            A[idx] = f(A[idx], val)
+            if which == 'iadd':
+                A[idx] += val
+            elif which == 'isub':
+                A[idx] -= val
+            else:
+                A[idx] *= val
             self.tick('iadd-idx' if which == 'iadd' else which + '-idx', h)
             op = which + '-idx'
         else:
             val = self.val((h.n,), h.cplx) if self.rng.random() < 0.7 else np.asarray(self.scalar(h.cplx))
             getattr(h.vec, which)(val)
-            A[:] = f(A[:], val)
+            if which == 'iadd':
+                A[:] += val
+            elif which == 'isub':
+                A[:] -= val
+            else:
+                A[:] *= val
             self.tick(which, h)
             op = which
         self.check_all(op, h)
@@ -1124,8 +1207,11 @@ class Run:
                     B1 = 1.0 / B1                 # norm(rev): x * scaler; judged by round trip only
                     judged = False
             elif kind == 'input' and not h.isroot:
-                if M.has['output'] and not M.sys_has_out_scaling(h.path):
-                    judged = False
+                # a sub-system's linear input vector divides either by the nonlinear scaler (a1*factor) or by its
+                # own rev-mode scaler (factor/a1), depending on the sub-system's internal scaling flags; OpenMDAO
+                # only ever applies it around the sub-system's own transfers, where both agree (a1 == 1 for
+                # every internally connected input).  Internal convention -> round trip only.
+                judged = False
         return B0, B1, mag0, judged
 
     def _scale_call(self, h, which, mode):
@@ -1299,20 +1385,34 @@ def _structure(run):
             [p.count('.') + 1 if p else 0 for p in run.paths]]
 
 
+def _setup_key(spec, e):
+    """mechanism key of an exception escaping setup/final_setup on a legal model."""
+    from omv.kit.gmon import exc_where
+    where = exc_where(e)
+    if spec is not None and where in ('group.py:_compute_root_scale_factors', 'default_vector.py:_set_scaling') \
+            and isinstance(e, ValueError) and 'broadcast' in str(e):
+        outs = {o['name']: o for c in spec['comps'] for o in c['outputs']}
+        for cn in spec['conns']:
+            o = outs.get(cn['src'])
+            if o is not None and cn['chain'] and isinstance(o.get('ref0'), list) and not isinstance(o.get('ref'), list):
+                return 'setup:scalar-ref+array-ref0+src_indices:raises:ValueError'
+    return exc_key('setup', e)
+
+
 def run_case(case, acc):
     run = Run(case, acc)
     try:
         run.build()
-    except RuntimeError as e:
-        if str(e).startswith('harness:'):
-            raise
-        acc.viol(exc_key('setup', e), '%s: %s' % (type(e).__name__, str(e)[:300]), case)
+    except Violation as v:
+        acc.viol(v.key, v.what[:600], case)
         return
     except Exception as e:
+        if isinstance(e, RuntimeError) and str(e).startswith('harness:'):
+            raise
         if os.environ.get('OMV_DEBUG'):
             import traceback
             traceback.print_exc()
-        acc.viol(exc_key('setup', e), '%s: %s' % (type(e).__name__, str(e)[:300]), case)
+        acc.viol(_setup_key(getattr(run, 'spec', None), e), '%s: %s' % (type(e).__name__, str(e)[:300]), case)
         return
     try:
         if run.scaling_missing:
@@ -1344,13 +1444,20 @@ def run_case(case, acc):
                      '%s: %s [step %r]' % (type(e).__name__, str(e)[:300], getattr(run, 'cur', None)), case)
             return
         M = run.M
+        if run.deferred:
+            seen = set()
+            for key, what in run.deferred:
+                if key not in seen:
+                    acc.viol(key, what[:600], case, new_case=not seen)
+                    seen.add(key)
+            return
         nontriv = len(run.paths) > 1 and any(M.has.values()) and len(run.ops_done) >= 10
         acc.ok(fingerprint(_structure(run)), nontrivial=nontriv,
                sample={'seed': case['seed'], 'cfg': run.cfg, 'systems': run.paths,
                        'sizes': M.n, 'scaling': M.has, 'ops': run.ops_done[:60]})
     finally:
         try:
-            if run.cfg['cs']:
+            if getattr(run, 'cfg', {}).get('cs'):
                 run.prob.set_complex_step_mode(False)
         except Exception:
             pass
